@@ -9,3 +9,8 @@ def fill(check, na):
           "burst > cwnd must get through; verdict taken on loop state, not on deadlines. Exploration of sampled fault prefixes.",
           "Same rig as C01. 'Quiescent' = no ready callback and no live timer. Cases that neither quiesce nor livelock within 900 virtual s are inconclusive.",
           "DESIGN.md 3/C02")
+    check("C06", "online uid-history oracle on mixed reliable / partially reliable channels + quiescence and post-heal probe obligations, seeded fault schedules in virtual time",
+          "Held on the executions produced: PR deliveries are exact duplicate-free copies in order; reliable channels sharing the "
+          "association keep the C01/C02 guarantees; after heal and quiescence every channel carries fresh traffic again.",
+          "Same rig as C01. maxPacketLifeTime is driven by the virtual clock. Post-heal obligation starts at the first quiescence after heal.",
+          "DESIGN.md 3/C06")
